@@ -63,3 +63,35 @@ fix_alloc_good (mpz_ptr r, const char *s, size_t n)
   mpz_clear (t);
   return 0;
 }
+
+/* negative: the NULL-sentinel idiom - the copy exists exactly when tp is not NULL */
+void
+fix_alloc_null_sentinel (mp_ptr rp, mp_srcptr np, mp_size_t n)
+{
+  mp_ptr tp = NULL;
+  if (rp == np)
+    {
+      tp = (mp_ptr) (*__gmp_allocate_func) (n * sizeof (mp_limb_t));
+      MPN_COPY (tp, np, n);
+      np = tp;
+    }
+  mpn_add_n (rp, np, np, n);
+  if (tp != NULL)
+    (*__gmp_free_func) (tp, n * sizeof (mp_limb_t));
+}
+
+/* positive: same shape, but the free is guarded by the wrong pointer's nullness */
+void
+fix_alloc_null_sentinel_bad (mp_ptr rp, mp_srcptr np, mp_size_t n, mp_ptr other)
+{
+  mp_ptr tp = NULL;
+  if (rp == np)
+    {
+      tp = (mp_ptr) (*__gmp_allocate_func) (n * sizeof (mp_limb_t));
+      MPN_COPY (tp, np, n);
+      np = tp;
+    }
+  mpn_add_n (rp, np, np, n);
+  if (other != NULL)
+    (*__gmp_free_func) (tp, n * sizeof (mp_limb_t));
+}
